@@ -382,4 +382,101 @@ theorem isrm_size (Nx Ny : Nat) (Rx Ry CR I : List (List Bool))
 example : isrm 1 2 [[true]] [[true, false], [false, true]] [[true, false]]
     = some [[true, true, false], [true, true, false], [false, false, true]] := by decide
 
+
+/-! ### joint recurrence plots -/
+
+/-- **joint plot, `lag ≥ 0`** (`set_fixed_threshold` bounds): for `N×N` sub-plots and
+`0 ≤ lag ≤ N` the slices fit, `JR` has side `N − lag` and
+`JR[i,j] = Rx[i,j] ∧ Ry[i+lag, j+lag]`. -/
+theorem joint_eq_product_pos (N : Nat) (fx fy : Nat → Nat → Bool) (lag : Nat) (h : lag ≤ N) :
+    jointSlices (tab N N fx) (tab N N fy) lag (jBoundsThr N lag)
+      = some (tab (N - lag) (N - lag) fun i j => fx i j && fy (i + lag) (j + lag)) := by
+  have hl : (lag : Int) ≥ 0 := by omega
+  simp only [jointSlices, hl, if_true, jBoundsThr, ArithC07.jrpPosXRowHi, ArithC07.jrpPosXColHi,
+    ArithC07.jrpPosYRowLo, ArithC07.jrpPosYRowHi, ArithC07.jrpPosYColLo, ArithC07.jrpPosYColHi]
+  rw [slice2_tab N fx 0 ((N : Int) - lag) (by omega) (by omega) (by omega),
+    slice2_tab N fy lag N (by omega) (by omega) (by omega)]
+  have e1 : ((N : Int) - (lag : Int) - 0).toNat = N - lag := by omega
+  have e2 : ((N : Int) - (lag : Int)).toNat = N - lag := by omega
+  rw [e1, e2, hadamard_tab]
+  simp [Nat.add_comm]
+
+/-- **joint plot, `lag < 0`**: `JR = Ry[:N+lag, :N+lag] * Rx[-lag:, -lag:]`, i.e. with
+`ℓ = −lag`: side `N − ℓ` and `JR[i,j] = Rx[i+ℓ, j+ℓ] ∧ Ry[i,j]` — the same pairs of
+time points `(t, t+lag)` as for the positive sign. -/
+theorem joint_eq_product_neg (N : Nat) (fx fy : Nat → Nat → Bool) (l : Nat) (h0 : 0 < l)
+    (h : l ≤ N) :
+    jointSlices (tab N N fx) (tab N N fy) (-(l : Int)) (jBoundsThr N (-(l : Int)))
+      = some (tab (N - l) (N - l) fun i j => fy i j && fx (i + l) (j + l)) := by
+  have hl : ¬ (-(l : Int)) ≥ 0 := by omega
+  simp only [jointSlices, hl, if_false, jBoundsThr, ArithC07.jrpNegYRowHi, ArithC07.jrpNegYColHi,
+    ArithC07.jrpNegXRowLo, ArithC07.jrpNegXRowHi, ArithC07.jrpNegXColLo, ArithC07.jrpNegXColHi]
+  rw [slice2_tab N fy 0 ((N : Int) + -(l : Int)) (by omega) (by omega) (by omega),
+    slice2_tab N fx (- -(l : Int)) N (by omega) (by omega) (by omega)]
+  have e1 : ((N : Int) + -(l : Int) - 0).toNat = N - l := by omega
+  have e2 : ((N : Int) - - -(l : Int)).toNat = N - l := by omega
+  have e3 : (- -(l : Int)).toNat = l := by omega
+  rw [e1, e2, e3, hadamard_tab]
+  simp [Nat.add_comm]
+
+/-- the fixed-rate constructor slices with the same bounds -/
+theorem joint_rate_bounds_eq (N lag : Int) : jBoundsRate N lag = jBoundsThr N lag := by
+  simp [jBoundsRate, jBoundsThr, ArithC07.jrpRatePosXRowHi, ArithC07.jrpRatePosXColHi,
+    ArithC07.jrpRatePosYRowLo, ArithC07.jrpRatePosYRowHi, ArithC07.jrpRatePosYColLo,
+    ArithC07.jrpRatePosYColHi, ArithC07.jrpRateNegYRowHi, ArithC07.jrpRateNegYColHi,
+    ArithC07.jrpRateNegXRowLo, ArithC07.jrpRateNegXRowHi, ArithC07.jrpRateNegXColLo,
+    ArithC07.jrpRateNegXColHi, ArithC07.jrpPosXRowHi, ArithC07.jrpPosXColHi,
+    ArithC07.jrpPosYRowLo, ArithC07.jrpPosYRowHi, ArithC07.jrpPosYColLo, ArithC07.jrpPosYColHi,
+    ArithC07.jrpNegYRowHi, ArithC07.jrpNegYColHi, ArithC07.jrpNegXRowLo, ArithC07.jrpNegXRowHi,
+    ArithC07.jrpNegXColLo, ArithC07.jrpNegXColHi]
+
+/-- **mutually consistent sizes**: the `N` a joint plot reports is the side of `JR`,
+for either sign of the lag and both constructors (false of the pinned code for
+`lag ≠ 0`, repaired by e81404a) -/
+theorem joint_size_consistent (N : Nat) (lag : Int) (h : lag.natAbs ≤ N) :
+    ArithC07.jrpReportedN N lag = ((N - lag.natAbs : Nat) : Int)
+    ∧ ArithC07.jrpRateReportedN N lag = ((N - lag.natAbs : Nat) : Int) := by
+  simp only [ArithC07.jrpReportedN, ArithC07.jrpRateReportedN]
+  omega
+
+example : jointSlices (tab 3 3 fun i j => decide (i = j ∨ i + j = 1)) (tab 3 3 fun _ _ => true) 1
+    (jBoundsThr 3 1) = some [[true, true], [true, true]] := by decide
+
+
+/-! ### adaptive neighbourhood size -/
+
+/-- **adaptive variant**: whenever the kernel returns (it does not raise after repair
+df8d67c; see `harness/c07.py`), every processed state `l` is linked to its `k`-th
+nearest neighbour `sorted_neighbors[l, k]` for every `1 ≤ k ≤ adaptive_neighborhood_size`
+that exists (`k < n`) — for every neighbour table and processing order. -/
+theorem adaptive_ge_k (n kA : Nat) (sn : List (List Nat)) (order : List Nat) (R : BM)
+    (h : adaptive n kA sn order = some R) (l : Nat) (hl : l ∈ order)
+    (k : Nat) (h1 : 1 ≤ k) (h2 : k ≤ kA) (h3 : k < n) : linked R sn l k :=
+  adaptive_rounds n sn order kA _ R h l hl k h1 h2 h3
+
+/-- hence at least `adaptive_neighborhood_size` neighbours when that many exist
+(`kA ≤ n − 1`): the `kA` columns `sn[l][1..kA]` (pairwise different when the row of
+`sorted_neighbors` is a permutation, and different from `l` when `sn[l][0] = l`) are
+all set in row `l`. -/
+theorem adaptive_row_has_k (n kA : Nat) (sn : List (List Nat)) (order : List Nat) (R : BM)
+    (h : adaptive n kA sn order = some R) (l : Nat) (hl : l ∈ order) (snl : List Nat)
+    (hsn : sn[l]? = some snl) (hlen : snl.length = n) (hk : kA + 1 ≤ n) :
+    ((snl.drop 1).take kA).length = kA ∧ ∀ c ∈ (snl.drop 1).take kA, R l c = true := by
+  refine ⟨by simp; omega, ?_⟩
+  intro c hc
+  rw [List.mem_take_iff_getElem] at hc
+  obtain ⟨i, hi, rfl⟩ := hc
+  obtain ⟨snl', c', h1, h2, h3⟩ := adaptive_ge_k n kA sn order R h l hl (i + 1) (by omega)
+    (by simp at hi; omega) (by simp at hi; omega)
+  rw [hsn] at h1; injection h1 with h1; subst h1
+  simp only [List.getElem_drop]
+  have : snl[1 + i]? = some c' := by rw [Nat.add_comm]; exact h2
+  rw [List.getElem?_eq_getElem (by simp at hi; omega)] at this
+  injection this with this
+  rw [this]; exact h3
+
+example : (match adaptive 3 1 [[0, 1, 2], [1, 0, 2], [2, 1, 0]] [0, 1, 2] with
+    | some R => bmTab 3 R | none => []) = [[false, true, true], [true, false, true], [true, true, false]] := by
+  decide
+
 end Pyunicorn.Recurrence
